@@ -690,6 +690,407 @@ def gen_forwarding(rep):
     return bool(f.get('ok')), "; ".join(f.get('problems', [])) or "all %d methods of the VecResampler blanket impl forward unchanged" % len(f.get('methods', []))
 
 
+
+# ================================================================== valid-history stream (C03, C04, C07, C09 ...)
+ALL_COMPONENTS = ['FastFixedIn', 'FastFixedOut', 'SincFixedIn', 'SincFixedOut', 'FftFixedIn', 'FftFixedOut', 'FftFixedInOut']
+
+
+def base_class(why):
+    return why[6:] if why.startswith('after:') else why
+
+
+def valid_stream(ctx, n_quick, n_thorough, tag, **kw):
+    rng, tier = ctx.rng, ctx.tier
+    n = n_quick if ctx.quick else n_thorough
+    cases = []
+    for i in range(n):
+        k = gens.ALL[i % 7]
+        cases.append(gens.valid_history(rng.fork("%s%d" % (tag, i)), k, tier, "%s_%04d_%s" % (tag, i, k), **kw))
+    return cases
+
+
+OKRES = ('counts', 'vecs', 'unit')
+
+
+def judge_C03(c):
+    out = []
+    tr = c.trace
+    if tr['new'] != 'ok':
+        return [fail(c, -1, "constructor failed on valid arguments: %s" % tr['new'])]
+    for i, (s, a) in enumerate(zip(tr['steps'], c.meta['ops'])):
+        env = a.get('envelope', True)
+        cls = None if env else base_class(a.get('why', ''))
+        if s.res in FATAL:
+            out.append(fail(c, i, "%s ended with %s on a valid call%s" % (s.op, s.res, '' if env else ' (outside the proven envelope: %s)' % a.get('why')), cls))
+            break
+        if s.res == 'err':
+            exp = a.get('expect_err')
+            if exp and s.fields[0] == exp:
+                continue
+            out.append(fail(c, i, "%s returned Err %s on a valid call%s" % (s.op, s.fields, '' if env else ' (outside the proven envelope: %s)' % a.get('why')), cls))
+    return out
+
+
+def run_C03(ctx):
+    res = new_results("valid histories over all seven types x {f32,f64}: constructor-accepted random configurations, sequences over "
+                      "process_into_buffer (exact/larger buffers, masks), process, process_partial(Some|None), in-range ratio changes "
+                      "(ramp on/off), set_chunk_size, reset; every outcome must be Ok (or the Err the contract prescribes for that call); "
+                      "each history also runs on the extracted model, which must predict the same outcome bit for bit",
+                      ALL_COMPONENTS)
+    cases = valid_stream(ctx, 84, 1400, 'v')
+    execute(ctx, cases, res, judge_C03, timeout=300)
+    res['dist'].update(collections.Counter("%s:%s" % (c.meta['cfg']['kind'], a['op']) for c in cases for a in c.meta['ops']))
+    res['dist']['calls_outside_envelope'] = sum(1 for c in cases for a in c.meta['ops'] if not a.get('envelope', True))
+    return res
+
+
+SENTINEL64 = f64hex(1234.5)
+SENTINEL32 = f32hex(1234.5)
+
+
+def judge_C04(c):
+    out = []
+    tr = c.trace
+    if tr['new'] != 'ok':
+        return [fail(c, -1, "constructor failed on valid arguments: %s" % tr['new'])]
+    kind = c.meta['cfg']['kind']
+    sent = SENTINEL64 if tr['ty'] == 'f64' else SENTINEL32
+    prev = tr['init']
+    tainted = None
+    for i, (s, a) in enumerate(zip(tr['steps'], c.meta['ops'])):
+        env = a.get('envelope', True)
+        if not env and tainted is None:
+            tainted = base_class(a.get('why', ''))
+        cls = tainted
+        if s.res in FATAL:
+            break
+        g = s.g
+        if g and (g[1] > g[0] or g[3] > g[2]):
+            out.append(fail(c, i, "after %s: input_frames_next %d / max %d, output_frames_next %d / max %d" % (s.op, g[1], g[0], g[3], g[2]), cls))
+        if s.res == 'counts' and s.op == 'PIB':
+            nin, nout = int(s.fields[0]), int(s.fields[1])
+            if nin != prev.g[1]:
+                out.append(fail(c, i, "consumed %d frames, input_frames_next() said %d" % (nin, prev.g[1]), cls))
+            if nout > prev.g[3]:
+                out.append(fail(c, i, "wrote %d frames, output_frames_next() said %d" % (nout, prev.g[3]), cls))
+            if kind in ('fastout', 'sincout', 'fftout', 'fftinout', 'fftin') and nout != prev.g[3]:
+                out.append(fail(c, i, "wrote %d frames, output_frames_next() promised exactly %d" % (nout, prev.g[3]), cls))
+            # nothing is written beyond the returned count, nothing at all into masked channels
+            mk = s.kv.get('mask', '-')
+            for ch, o in enumerate(s.outs):
+                vals = expand_hex(o)
+                active = (mk == '-' or (ch < len(mk) and mk[ch] == '1'))
+                tail = vals[nout:] if active else vals
+                if any(v != sent for v in tail):
+                    out.append(fail(c, i, "channel %d: frames beyond the returned count (or a masked channel) were written" % ch, cls))
+                    break
+        elif s.res == 'vecs' and s.op == 'PROCESS':
+            mk = s.kv.get('mask', '-')
+            for ch, o in enumerate(s.outs):
+                active = (mk == '-' or (ch < len(mk) and mk[ch] == '1'))
+                n = len(expand_hex(o))
+                if active and n > prev.g[3]:
+                    out.append(fail(c, i, "process() returned %d frames, more than output_frames_next() = %d" % (n, prev.g[3]), cls))
+        prev = s
+    return out
+
+
+def run_C04(ctx):
+    res = new_results("the valid-history stream of C03 with sentinel-filled output buffers of exactly output_frames_next (or larger) "
+                      "frames; after every operation next <= max for input and output, consumed == input_frames_next, written <= "
+                      "output_frames_next (== for fixed-output and synchronous types), nothing written beyond the returned count", ALL_COMPONENTS)
+    cases = valid_stream(ctx, 84, 1400, 'g')
+    execute(ctx, cases, res, judge_C04, timeout=300)
+    res['dist'].update(collections.Counter(c.meta['cfg']['kind'] for c in cases))
+    return res
+
+
+# ================================================================== C07
+def judge_C07(c):
+    out = []
+    tr = c.trace
+    cfg = c.meta['cfg']
+    if tr['new'] != 'ok':
+        return [fail(c, -1, "constructor failed: %s" % tr['new'])]
+    nin = nout = 0
+    kind = cfg['kind']
+    for i, s in enumerate(tr['steps']):
+        if s.res in FATAL:
+            out.append(fail(c, i, "fatal outcome at constant ratio: %s" % s.res))
+            break
+        if s.res == 'counts':
+            nin += int(s.fields[0])
+            nout += int(s.fields[1])
+            if kind in gens.ASYNC:
+                r = cfg['ratio']
+                L = cfg['L']
+                bound = r * (L + 1.0 / r + 3) + 3
+                if abs(nout - r * nin) > bound * (1 + 1e-9):
+                    out.append(fail(c, i, "after %d frames in, %d out at ratio %r: |out - r*in| = %r > %r" % (nin, nout, r, abs(nout - r * nin), bound)))
+                    break
+            else:
+                st = [int(x) for x in s.s]
+                fin, fout = (st[1], st[2]) if kind != 'fftinout' else (st[0], st[1])
+                lhs = nin * cfg['rout'] - nout * cfg['rin']
+                if fin * cfg['rout'] != fout * cfg['rin']:
+                    out.append(fail(c, i, "block sizes %d:%d are not in the ratio of the rates %d:%d" % (fin, fout, cfg['rin'], cfg['rout'])))
+                    break
+                if kind == 'fftinout':
+                    if lhs != 0:
+                        out.append(fail(c, i, "FftFixedInOut: in*rate_out - out*rate_in = %d, must be 0" % lhs))
+                        break
+                    g = math.gcd(cfg['rin'], cfg['rout'])
+                    if fin < cfg['chunk'] or fin - cfg['rin'] // g >= cfg['chunk']:
+                        out.append(fail(c, i, "FftFixedInOut block %d is not the smallest valid size >= requested chunk %d" % (fin, cfg['chunk'])))
+                        break
+                elif not (0 <= lhs < fin * cfg['rout']):
+                    out.append(fail(c, i, "in*rate_out - out*rate_in = %d not in [0, one block = %d)" % (lhs, fin * cfg['rout'])))
+                    break
+    return out
+
+
+def run_C07(ctx):
+    rng, tier = ctx.rng, ctx.tier
+    res = new_results("constant-ratio streams on all seven types, chunk sizes from 1 frame up, set_chunk_size schedules on the sinc types, "
+                      "many calls; running totals checked after every call against the property's bound (asynchronous) or the "
+                      "block balance (synchronous: 0 <= in*rate_out - out*rate_in < one block, == 0 for FftFixedInOut, block sizing)", ALL_COMPONENTS)
+    cases = []
+    n = 56 if ctx.quick else 700
+    for i in range(n):
+        r = rng.fork("c07_%d" % i)
+        k = gens.ALL[i % 7]
+        nops = (20 + r.below(40)) if ctx.quick else (60 + r.below(400))
+        ops = ['pib', 'pib', 'pib', 'pib', 'pib', 'setchunk'] if k in ('sincin', 'sincout') else ['pib']
+        cfg = None
+        if k in gens.ASYNC:
+            cfg = async_cfg(r, k, tier)
+            if r.chance(0.4):
+                cfg['chunk'] = r.choice([1, 1, 2, 3])
+            elif k.startswith('sinc'):
+                cfg['chunk'] = min(cfg['chunk'], 48 if ctx.quick else 256)
+            if k.startswith('sinc'):
+                cfg['slen'] = min(cfg['slen'], 24)
+                cfg['L'] = 8 * ((cfg['slen'] + 7) // 8)
+        else:
+            cfg = fft_cfg(r, k, tier)
+            if r.chance(0.4):
+                cfg['chunk'] = r.choice([1, 1, 2, 3])
+        cases.append(gens.valid_history(r, k, tier, "acc_%04d_%s" % (i, k), nops=nops, cfg=cfg, ops_allowed=ops, no_mask=True,
+                                        sig="rand:%d" % r.below(9999)))
+    execute(ctx, cases, res, judge_C07, timeout=600)
+    res['dist'].update(collections.Counter(c.meta['cfg']['kind'] for c in cases))
+    res['dist']['total_calls'] = sum(len(c.meta['ops']) for c in cases)
+    return res
+
+
+# ================================================================== C06
+def judge_C06(c):
+    """Linear interpolation of the index ramp: every output value IS the input instant it was evaluated at."""
+    out = []
+    tr = c.trace
+    cfg = c.meta['cfg']
+    if tr['new'] != 'ok':
+        return [fail(c, -1, "constructor failed: %s" % tr['new'])]
+    ty = tr['ty']
+    tol = 1e-9 if ty == 'f64' else 2e-3
+    prev_tau = None
+    trk = gens.RatioTracker(cfg)
+    tainted = None
+    last_spacing = None
+    supplied = 0
+    for i, (s, a) in enumerate(zip(tr['steps'], c.meta['ops'])):
+        if a['op'] in ('setratio', 'setrel'):
+            if s.res == 'unit':
+                trk.set_ratio(a['ratio'], a['ramp'])
+            continue
+        if a['op'] == 'reset':
+            trk.reset(); prev_tau = None; tainted = None; supplied = 0
+            continue
+        env = a.get('envelope', True)
+        if not env and tainted is None:
+            tainted = base_class(a.get('why', ''))
+        if s.res in FATAL:
+            out.append(fail(c, i, "fatal outcome: %s" % s.res, tainted))
+            break
+        if s.res != 'counts':
+            continue
+        nin, nout = int(s.fields[0]), int(s.fields[1])
+        t_old, t_new = 1.0 / trk.ratio, 1.0 / trk.target
+        lo, hi = min(t_old, t_new), max(t_old, t_new)
+        ramp = trk.ratio != trk.target
+        taus = expand_samples(s.outs[0], ty)[:nout]
+        supplied += nin
+        A = trk.chunk * 0.5 * (trk.ratio + trk.target)
+        for j, tau in enumerate(taus):
+            if ramp and cfg['kind'] in ('fastin', 'sincin') and j + 1 > A - 1 and tainted is None:
+                tainted = 'ramp-overrun'      # frames beyond approximate_nbr_frames keep ramping
+            if tau < 1.0:
+                prev_tau = None if tau <= 0 else tau       # still inside the zero history
+                continue
+            scale = tol * max(1.0, abs(tau))
+            if tau > supplied - 1 + scale:
+                out.append(fail(c, i, "frame %d is evaluated at instant %r but only %d input frames were supplied" % (j, tau, supplied), tainted))
+                return out
+            if prev_tau is not None and prev_tau >= 1.0:
+                d = tau - prev_tau
+                if d <= 0:
+                    out.append(fail(c, i, "instants not strictly increasing at frame %d: %r after %r" % (j, tau, prev_tau), tainted))
+                    return out
+                if d < lo - scale or d > hi + scale:
+                    out.append(fail(c, i, "spacing %r at frame %d outside [%r, %r] (ratio %r -> %r, ramp=%s)" % (d, j, lo, hi, trk.ratio, trk.target, ramp), tainted))
+                    return out
+                if ramp and last_spacing is not None and j > 0:
+                    if (t_new >= t_old and d < last_spacing - scale) or (t_new <= t_old and d > last_spacing + scale):
+                        out.append(fail(c, i, "ramp spacing not monotone at frame %d: %r after %r" % (j, d, last_spacing), tainted))
+                        return out
+                last_spacing = d
+            prev_tau = tau
+        trk.processed()
+        last_spacing = None if ramp else last_spacing
+    return out
+
+
+def run_C06(ctx):
+    rng, tier = ctx.rng, ctx.tier
+    res = new_results("FastFixedIn/FastFixedOut with Linear interpolation fed the index ramp x[n]=n (every output value is the input "
+                      "instant at which it was evaluated): random in-range ratio changes, ramped and not, between processing calls; "
+                      "instants strictly increasing, spacing within [1/old,1/new], monotone during a ramp, equal to 1/new afterwards, "
+                      "never beyond the supplied frames; plus the general valid stream on the sinc types against the bit-exact model "
+                      "(carried position compared after every call)", ['FastFixedIn', 'FastFixedOut', 'SincFixedIn', 'SincFixedOut'])
+    cases = []
+    n = 40 if ctx.quick else 500
+    ops = ['pib', 'pib', 'pib', 'setratio', 'setrel', 'setratio']
+    for i in range(n):
+        r = rng.fork("c06_%d" % i)
+        k = ['fastin', 'fastout'][i % 2]
+        cfg = async_cfg(r, k, tier, deg=3, nch=1, ty='f64')
+        cfg['chunk'] = max(cfg['chunk'], 24)
+        cfg['maxrel'] = r.choice([1.5, 2.0, 4.0, 10.0])
+        c = gens.valid_async_history(r, k, tier, "warp_%04d_%s" % (i, k), nops=8 + r.below(10), cfg=cfg, ops_allowed=ops,
+                                     no_mask=True, sig="ramp")
+        c.meta['warp'] = True
+        cases.append(c)
+    sinc = []
+    for i in range(48 if ctx.quick else 400):
+        r = rng.fork("c06s_%d" % i)
+        k = ['sincin', 'sincout', 'sincout', 'fastout'][i % 4]
+        cfg = async_cfg(r, k, 'quick', nch=1)
+        cfg['chunk'] = min(cfg['chunk'], 24)
+        if k.startswith('sinc'):
+            cfg['slen'] = cfg['L'] = r.choice([8, 16]); cfg['interp'] = 'default'
+        sinc.append(gens.valid_async_history(r, k, tier, "warps_%04d_%s" % (i, k), nops=8 + r.below(8), cfg=cfg,
+                                             ops_allowed=['pib', 'setratio', 'setratio', 'setrel'], no_mask=True))
+
+    def judge_setters(c):
+        # a non-ramped change must be in force for the next chunk (ratio in use == new), a ramped one leaves the ratio in use
+        out = []
+        tr = c.trace
+        prev = tr['init']
+        for i, s in enumerate(tr['steps']):
+            if s.res in FATAL:
+                break
+            if s.op == 'SETRATIO' and s.res == 'unit' and s.s and prev.s:
+                x = s.kv['x']
+                if s.s[3] != x:
+                    out.append(fail(c, i, "set_resample_ratio(%r): target ratio is %r afterwards" % (hexf64(x), hexf64(s.s[3]))))
+                if s.kv['ramp'] == '0' and s.s[2] != x:
+                    out.append(fail(c, i, "non-ramped set_resample_ratio(%r) is not in force for the next chunk (ratio in use %r)" % (hexf64(x), hexf64(s.s[2]))))
+                if s.kv['ramp'] == '1' and s.s[2] != prev.s[2]:
+                    out.append(fail(c, i, "ramped set_resample_ratio changed the ratio in use immediately"))
+            prev = s
+        return out
+
+    def judge(c):
+        return (judge_C06(c) if c.meta.get('warp') else []) + judge_setters(c)
+
+    execute(ctx, cases + sinc, res, judge, timeout=300)
+    res['dist'].update({'ramp_histories': len(cases), 'sinc_histories': len(sinc),
+                        'ratio_changes': sum(1 for c in cases for a in c.meta['ops'] if a['op'] in ('setratio', 'setrel'))})
+    return res
+
+
+# ================================================================== C14
+def run_C14(ctx):
+    rng, tier = ctx.rng, ctx.tier
+    res = new_results("impulse alignment on all seven types: a unit impulse at input frame n0 inside a long zero stream; the centroid of "
+                      "|output| must lie within max(1,ratio)+1 frames of n0*ratio + output_delay()", ALL_COMPONENTS)
+    cases = []
+    n = 28 if ctx.quick else 280
+    for i in range(n):
+        r = rng.fork("c14_%d" % i)
+        k = gens.ALL[i % 7]
+        if k in gens.ASYNC:
+            cfg = async_cfg(r, k, tier, nch=1, ty='f64')
+            cfg['ratio'] = r.choice([1.0, 0.5, 2.0, 48000 / 44100, 44100 / 48000, 1.5, 0.75, 3.0])
+            cfg['maxrel'] = 1.0
+            cfg['chunk'] = r.choice([32, 64, 100])
+            if k.startswith('fast'):
+                cfg['deg'] = r.choice([0, 1, 2, 3])
+            else:
+                cfg['itype'] = r.choice([0, 1, 2])
+                cfg['factor'] = r.choice([16, 32, 128])
+                cfg['slen'] = r.choice([16, 32, 64]); cfg['L'] = cfg['slen']; cfg['interp'] = 'default'
+            ratio = cfg['ratio']
+        else:
+            cfg = fft_cfg(r, k, tier, nch=1, ty='f64')
+            cfg['rin'], cfg['rout'] = r.choice([(44100, 48000), (48000, 44100), (2, 3), (3, 2), (1, 1), (16000, 48000)])
+            cfg['chunk'] = r.choice([64, 100, 128]); cfg['sub'] = 1
+            ratio = cfg['rout'] / cfg['rin']
+        n0 = 300 + r.below(200)
+        lines = ["T ty=f64", new_line(cfg)]
+        for _ in range(int((n0 + 900) / max(1, cfg['chunk'] if k not in ('fastout', 'sincout', 'fftout') else cfg['chunk'] / ratio)) + 6):
+            lines.append("PIB mask=- inlen=next outlen=max sig=imp:%d" % n0)
+        cases.append(Case("imp_%04d_%s" % (i, k), lines, {'cfg': cfg, 'n0': n0, 'ratio': ratio}))
+
+    def judge(c):
+        tr = c.trace
+        if tr['new'] != 'ok':
+            return [fail(c, -1, "constructor failed: %s" % tr['new'])]
+        ys = []
+        delay = tr['init'].g[4]
+        for s in tr['steps']:
+            if s.res != 'counts':
+                return [fail(c, -1, "call failed: %s %s" % (s.res, s.fields))]
+            ys.extend(expand_samples(s.outs[0], 'f64')[:int(s.fields[1])])
+        w = sum(abs(y) for y in ys)
+        if w == 0:
+            return [fail(c, -1, "the impulse never appeared in the output")]
+        # centre of the response: energy centroid (robust for symmetric kernels)
+        cen = sum(j * y * y for j, y in enumerate(ys)) / sum(y * y for y in ys)
+        ratio, n0 = c.meta['ratio'], c.meta['n0']
+        want = n0 * ratio + delay
+        tolr = max(1.0, ratio) + 1.0
+        if abs(cen - want) > tolr:
+            kind = c.meta['cfg']['kind']
+            cls = 'sinc-output-delay' if kind in ('sincin', 'sincout') else None
+            return [fail(c, -1, "impulse at input frame %d appears centred at output frame %.3f; n*ratio + output_delay() = %.3f (delay %d), tolerance %.2f"
+                         % (n0, cen, want, delay, tolr), cls)]
+        return []
+
+    execute(ctx, cases, res, judge, timeout=300)
+    res['dist'].update(collections.Counter(c.meta['cfg']['kind'] for c in cases))
+    return res
+
+
+def witness_fails(pid, c):
+    """does the stored witness of a known finding still fail on this tree?"""
+    tr = c.trace
+    if any(s.res in FATAL for s in tr['steps']):
+        return True
+    if pid == 'C14':
+        ys = []
+        for s in tr['steps']:
+            if s.res == 'counts':
+                ys.extend(expand_samples(s.outs[0], tr['ty'])[:int(s.fields[1])])
+        e = sum(y * y for y in ys)
+        if e == 0:
+            return True
+        cen = sum(j * y * y for j, y in enumerate(ys)) / e
+        delay = tr['init'].g[4]
+        return abs(cen - (500 + delay)) > 2.0
+    return False
+
+
 PROPS = {
     'C08': {
         'run': run_C08,
@@ -731,5 +1132,56 @@ PROPS = {
         'unproved': ['independence of the written prefix from the initial content of a larger output buffer (compared on every trace, not a theorem)'],
         'assumptions': ['the wrappers of the model are a transcription of lib.rs:75-195; the tie is the bit-exact correspondence on wrapper calls'],
         'trusted_base': ['closed under the global context (no axioms)'],
+    },
+    'C03': {
+        'run': run_C03,
+        'pinned': ['C03_fast_in_call_safe_R', 'C03_fast_out_call_safe_R', 'C03_fast_in_run_safe_R', 'C03_fast_out_run_safe_R',
+                   'C03_ctor_fast_in_R', 'C03_ctor_fast_out_R', 'C03_fast_window_R'],
+        'unproved': ['SincFixedIn/SincFixedOut and the three FFT types: safety is established by the bit-exact model on every sampled history, not by theorem',
+                     'ratio changes (ramped or stepped): outside the constant-ratio theorem; the executable envelope of tools/gens.py separates '
+                     'histories expected to be safe from the recorded finding classes',
+                     'floating-point rounding inside the loops (theorems are over R)'],
+        'assumptions': ['ideal arithmetic for the theorems; IEEE-754 conformance of the platform for the bit-exact comparison',
+                        'debug build: std turns get_unchecked out of range into an abort, which the harness classifies'],
+        'trusted_base': ['Reals axioms (lra/nra/field), Flocq Zfloor/Zceil lemmas'],
+    },
+    'C04': {
+        'run': run_C04,
+        'pinned': ['C04_fast_in_counts_R', 'C04_fast_out_counts_R', 'C04_fast_in_next_le_max_R', 'C04_sinc_in_next_le_max_R', 'C04_fast_out_next_le_max_R'],
+        'unproved': ['next <= max in binary64 (the inequalities are proved over R; the fix of D7 makes both sides the same association, '
+                     'monotonicity of rounding is not formalised)', 'sinc and FFT types: counts by correspondence only',
+                     'ratio changes outside the envelope'],
+        'assumptions': ['ideal arithmetic'],
+        'trusted_base': ['Reals axioms, Flocq Ztrunc/Zceil lemmas'],
+    },
+    'C06': {
+        'run': run_C06,
+        'pinned': ['C06_instants_fixed_out_R', 'C06_instants_fixed_in_R', 'C06_loop_ops_R', 'C06_spacing_R', 'C06_increment_fixed_in_R',
+                   'C06_increment_fixed_out_R', 'C06_step_immediate_R', 'C06_ramp_interval_R', 'C06_ramp_monotone_R',
+                   'C06_steps_positive_R', 'C06_ramp_reaches_target_R', 'C06_after_ramp_R'],
+        'unproved': ['C06_full_fixed_in is refuted in Coq (C06_full_fixed_in_refuted): beyond frame A of a fixed-input ramp the spacing leaves '
+                     '[old,new] (recorded finding ramp-overrun)',
+                     '"computed from frames actually supplied": for fixed-output ramps the request is too small (recorded finding fixedout-ramp); '
+                     'for constant ratio it follows from the window bounds of C03'],
+        'assumptions': ['ideal arithmetic; the bit-exact model carries the float positions'],
+        'trusted_base': ['Reals axioms'],
+    },
+    'C07': {
+        'run': run_C07,
+        'pinned': ['C07_fast_in_telescope_R', 'C07_fast_out_telescope_R', 'C07_fast_in_bound_R', 'C07_fast_out_bound_R',
+                   'C07_ctor_fast_in_R', 'C07_ctor_fast_out_R'],
+        'unproved': ['sinc and FFT types: by the bit-exact model and the balance predicate on every sampled stream, not by theorem',
+                     'float drift of the carried position over very long streams'],
+        'assumptions': ['ideal arithmetic'],
+        'trusted_base': ['Reals axioms'],
+    },
+    'C14': {
+        'run': run_C14,
+        'pinned': ['C14_fast_initial_position_R', 'C14_fast_instant_R', 'C14_fast_true_delay_R', 'C14_fast_in_delay_R',
+                   'C14_fast_out_delay_R', 'C14_fft_reported_Z', 'C14_sinc_reported_R'],
+        'unproved': ['FFT types: that the spectral path is a linear-phase convolution centred at fft_size_in/2 (oracle)',
+                     'sinc types: reported sinc_len*ratio/2 is NOT the alignment of the stream (known finding sinc-output-delay)'],
+        'assumptions': ['ideal arithmetic'],
+        'trusted_base': ['Reals axioms'],
     },
 }
